@@ -600,6 +600,15 @@ func truthyUseRuleSSA(r *Run, rule string) {
 					nTruthy++
 					continue
 				}
+				// truthy(v) compared with another bool that is not itself derived from a value
+				if bo, ok := d.cond.(*ssa.BinOp); ok && (bo.Op == token.EQL || bo.Op == token.NEQ) && isBasicKind(bo.X.Type(), types.Bool) {
+					_, tx := cm.truthyOf(p, bo.X)
+					_, ty := cm.truthyOf(p, bo.Y)
+					if (tx && !cm.rawUse(p, bo.Y, 0)) || (ty && !cm.rawUse(p, bo.X, 0)) {
+						nTruthy++
+						continue
+					}
+				}
 				if !cm.rawUse(p, d.cond, 0) {
 					continue
 				}
